@@ -63,6 +63,26 @@ class World:
         try:
             for ex in sim.executors:
                 ex.closed = True
+            # Close every coroutine that is still suspended (pending tasks of stopped/closed loops, objects the
+            # harness kept alive).  Their finally-blocks run now, through the pass-through shims, instead of at
+            # some later garbage collection - and, on CPython 3.12, a suspended frame that has been line-traced
+            # is otherwise never freed (it keeps the whole world alive: measured +70 objects per case).
+            for loop in sim.loops:
+                try:
+                    pending = [t for t in asyncio.all_tasks(loop)]
+                except Exception:  # noqa
+                    pending = []
+                for t in pending:
+                    try:
+                        t.get_coro().close()
+                    except BaseException:  # noqa
+                        pass
+            for o in self.keep:
+                if asyncio.iscoroutine(o) or hasattr(o, 'aclose') or hasattr(o, 'close') and hasattr(o, 'gi_frame'):
+                    try:
+                        o.close() if hasattr(o, 'close') else None
+                    except BaseException:  # noqa
+                        pass
             for loop in sim.loops:
                 try:
                     if not loop.is_closed():
